@@ -332,6 +332,77 @@ class Body:
             return True
         return target not in self.reachable(start, avoid=through)
 
+    def _switch_root(self, bi):
+        """For a switch on a plain local: the single-definition local the tested value is a copy of (or None)."""
+        t = self.blocks[bi]['term']
+        if t['k'] != 'switch':
+            return None
+        p = op_place(t['discr'])
+        l = p['l'] if p and not place_proj(p) else None
+        for _ in range(6):
+            if l is None:
+                return None
+            ds = [d for d in self.whole_defs(l) if d[0] in self.live]
+            if 1 <= l <= self.argc and not ds:
+                return l
+            if len(ds) != 1:
+                return None
+            d = ds[0]
+            if d[2] == 'assign' and d[3]['rv']['k'] == 'use' and op_place(d[3]['rv']['op']) is not None and not place_proj(op_place(d[3]['rv']['op'])):
+                l = op_place(d[3]['rv']['op'])['l']
+                continue
+            if d[0] in self.reachable_after(d[0]):
+                return None     # defined in a loop: not one value
+            return l
+        return None
+
+    def must_pass_corr(self, through, target, start=0):
+        """must_pass with correlated branches: two switches on (copies of) the same once-assigned local take the same side
+        on any real path (`if !qos2 { release }` ... `if qos2 { A } else { B }`). Explores (block, known outcomes)."""
+        through = set(through)
+        if target in through:
+            return True
+        roots = {}
+        seen = set()
+        st = [(start, frozenset())]
+        steps = 0
+        while st:
+            bi, known = st.pop()
+            if (bi, known) in seen or bi in through or bi not in self.live:
+                continue
+            seen.add((bi, known))
+            steps += 1
+            if steps > 20000:
+                return self.must_pass(through, target, start)
+            if bi == target:
+                return False
+            t = self.blocks[bi]['term']
+            if t['k'] == 'switch':
+                if bi not in roots:
+                    roots[bi] = self._switch_root(bi)
+                r = roots[bi]
+                if r is not None:
+                    kd = dict(known)
+                    vals = [v for v, _ in t['targets']]
+                    if r in kd:
+                        v = kd[r]
+                        tg = dict((a, b_) for a, b_ in t['targets'])
+                        st.append((tg.get(v, t['otherwise']), known))
+                        continue
+                    for v, b2 in t['targets']:
+                        st.append((b2, frozenset(list(known) + [(r, v)])))
+                    if self.local_ty(r) == 'bool' and len(vals) == 1 and vals[0] in (0, 1):
+                        st.append((t['otherwise'], frozenset(list(known) + [(r, 1 - vals[0])])))
+                    elif len(vals) >= 2 and self.blocks[t['otherwise']]['term']['k'] == 'unreachable':
+                        pass
+                    else:
+                        # value outside the listed ones: not comparable with a later switch, forget it
+                        st.append((t['otherwise'], known))
+                    continue
+            for n in self.succ[bi]:
+                st.append((n, known))
+        return True
+
     # ---- iteration
     def calls(self, live_only=True):
         for i, b in enumerate(self.blocks):
@@ -847,6 +918,10 @@ def bool_branch(body, start_block, local):
             b = t['target']
         elif t['k'] == 'drop' and (op_place({'cp': t['place']}) or {}).get('l') not in pos:
             # dropping another value (a guard going out of scope at the end of a helper) does not change the bool
+            b = t['target']
+        elif t['k'] == 'call' and b != start_block and isinstance(t.get('target'), int) and not place_proj(t['dest']) and t['dest']['l'] not in pos \
+                and not any((op_place(a) or {}).get('l') in pos for a in t.get('args', [])):
+            # a call in between that neither receives nor overwrites the tested value (`cell.set(v)` between the test and the `if`)
             b = t['target']
         elif t['k'] in ('call', 'drop', 'assert') and b != start_block:
             # allow intervening pure calls (e.g. is_ok on a reference) only through call_bool_branch
